@@ -339,6 +339,30 @@ pub fn condition_register_bit_to_flag(condition_register_bit: usize) -> Result<S
     })
 }
 
+/// Record forms (`add.`, `subf.`, `rlwinm.`, ...) additionally compare their
+/// result, as a signed integer, with zero, and set LT, GT, EQ of CR0 accordingly.
+/// Capstone reports them under the id of the plain instruction with
+/// `update_cr0` set. The result is read back from the destination register
+/// (operand 0) at the end of the instruction's graph.
+pub fn record(
+    control_flow_graph: &mut ControlFlowGraph,
+    instruction: &capstone::Instr,
+) -> Result<(), Error> {
+    let detail = details(instruction)?;
+
+    if !detail.update_cr0 {
+        return Ok(());
+    }
+
+    let result = get_register(detail.operands[0].reg())?.expression();
+    let exit = control_flow_graph
+        .exit()
+        .ok_or("record form: graph has no exit")?;
+    let block = control_flow_graph.block_mut(exit)?;
+
+    set_condition_register_signed(block, scalar("cr0", 32), result, expr_const(0, 32))
+}
+
 pub fn rlwinm_(
     control_flow_graph: &mut ControlFlowGraph,
     ra: Scalar,
